@@ -150,6 +150,9 @@ class VirtualLoop(asyncio.BaseEventLoop):
 
     async def getaddrinfo(self, host, port, *, family=0, type=0, proto=0, flags=0):  # noqa: ANN001, ANN201, A002
         await asyncio.sleep(0)
+        gate = getattr(self, "resolver_gate", None)
+        if gate is not None:
+            await gate            # the harness decides when the resolver thread reports back
         if host in self.resolver:
             return [(socket.AF_INET6 if ":" in ip else socket.AF_INET, socket.SOCK_DGRAM, 17, "", (ip, port))
                     for ip in self.resolver[host]]
